@@ -64,7 +64,7 @@ def enumerated(tier):
 def grid(tier):
     if tier == 'quick':
         return [1, 2, 3, 4, 5, 6, 7, 8], [1, 2, 3, 4, 6]
-    return list(range(1, 11)), list(range(1, 11))
+    return list(range(1, 17)), list(range(1, 11))       # n through two full periods of the mod-8 case analysis of the complex-step rule
 
 
 def groups(tier):
